@@ -1574,14 +1574,22 @@ ElemNumber::toRoman(
             bool                prefixesAreOK,
             XalanDOMString&     theResult)
 {
+    // Values above 3999 are written with as many leading M's as
+    // they have thousands.  That has to stop somewhere, or a large
+    // value takes for ever and all of the memory, so really large
+    // values are written as decimal numbers.
+    const CountType     theMaximumValue = 1000000;
+
     if(val == 0)
     {
         theResult = XalanUnicode::charDigit_0;
     }
+    else if (val > theMaximumValue)
+    {
+        NumberToDOMString(XMLUInt64(val), theResult);
+    }
     else
     {
-        // Values above 3999 are written with as many
-        // leading M's as they have thousands.
         theResult.clear();
 
         size_t  place = 0;
